@@ -1149,6 +1149,18 @@ class CallMixin:
             return [self.val(st, VSeq(st.lst_get(v), v.T.elem))]
         if isinstance(v, VObj):
             return [self.val(st, v)]
+        if isinstance(v, VRef) and v.cls == "ISlice":
+            # tuple(itertools.islice(it, n)): the next min(n, remaining) items of the underlying iterator, which advances by as many
+            it, _ = st.read_field(v, "it")
+            n, _ = st.read_field(v, "n")
+            seqs, poss = st.ghost_get("it_seq"), st.ghost_get("it_pos")
+            sq, pos = z3.Select(seqs, it.t), z3.Select(poss, it.t)
+            st.assume(z3.And(pos >= 0, pos <= z3.Length(sq)))
+            rem = z3.Length(sq) - pos
+            k = z3.If(n.t <= 0, z3.IntVal(0), z3.If(n.t < rem, n.t, rem))
+            st.ghost_set("it_pos", z3.Store(poss, it.t, pos + k))
+            st.emit("islice_take", [it, VInt(pos), VInt(k)])
+            return [self.val(st, VSeq(z3.SubSeq(sq, pos, k), ty.Obj))]
         raise EngineError(f"tuple({v!r})")
 
     def bi_list(self, args, kwargs, st, node):
@@ -1256,7 +1268,16 @@ class CallMixin:
         return self.zip_symbolic(args, st, node)
 
     def zip_symbolic(self, args, st, node):
-        raise EngineError("zip over symbolic iterables (needs an external contract)")
+        """zip(*its) over opaque iterables: an iterator object over the (finite) sequence of argument tuples py_zip(its)."""
+        packed = [a.v if isinstance(a, Star) else a for a in args]
+        src = to_obj_term(VTuple([VConst("*")] + packed)) if any(isinstance(a, Star) for a in args) else to_obj_term(VTuple(packed))
+        f = z3.Function("py_zip", ty.IntS, z3.SeqSort(ty.IntS))
+        it = st.new_obj("Iterator")
+        st.ghost_set("it_seq", z3.Store(st.ghost_get("it_seq"), it.t, f(src)))
+        st.ghost_set("it_pos", z3.Store(st.ghost_get("it_pos"), it.t, z3.IntVal(0)))
+        st.emit("new_iterator", [it], self.site(node))
+        self.abstractions.add("zip(*iterables) is an iterator over the finite sequence py_zip(iterables) of argument tuples (A-iter)")
+        return [self.val(st, it)]
 
     def bi_map(self, args, kwargs, st, node):
         fn = args[0]
@@ -1588,6 +1609,8 @@ class CallMixin:
             f = z3.Function(f"seq_rev_{seq.sort().name()}", seq.sort(), seq.sort())
             r = f(seq)
             st.assume(z3.Length(r) == z3.Length(seq))
+            st.qhyps.append(QHyp(ty.IntS, lambda k, r=r, seq=seq:
+                                 z3.Implies(z3.And(k >= 0, k < z3.Length(seq)), r[k] == seq[z3.Length(seq) - 1 - k]), "reverse-pointwise"))
             st.lst_set(l, r)
             return [self.val(st, NONE)]
         if name == "remove":
